@@ -60,6 +60,14 @@ Definition dead_if (s : stmt) : option (list stmt) :=
   | SAtom _ => None
   end.
 
+(* remove_dead_ifs leaves an `if` that is written as `elif` alone: dedenting its live branch would make
+   it run after the earlier branches too.  [is_elif]: the source text of the node starts with "elif". *)
+Definition dead_if_src (is_elif : bool) (s : stmt) : option (list stmt) :=
+  match s with
+  | SIf _ _ _ => if is_elif then None else dead_if s
+  | _ => dead_if s
+  end.
+
 (* delete_unreachable_code, If / While branch: the children of the dead branch are deleted (an `if`
    that loses both branches, and a `while` whose test is false, are deleted as a whole) *)
 Definition unreachable_if (s : stmt) : option (list stmt) :=
@@ -147,7 +155,29 @@ Definition cons_code (shape : nat) (e : expr) : option nat :=
          match fold_bool_expr e with
          | None => 0 | Some (EConst (VBool false)) => 10 | Some (EConst (VBool true)) => 11 | _ => 99
          end
-     | _ => 99
+     | 7%nat => (* if u: A0 elif e: A1 else: A2 ; remove_dead_ifs on the elif *)
+         match dead_if_src true (SIf e [SAtom 1] [SAtom 2]) with None => 0 | _ => 99 end
+     | 8%nat => (* if e: A1 (no else) ; remove_dead_ifs *)
+         match dead_if_src false (SIf e [SAtom 1] []) with
+         | None => 0 | Some [] => 3 | Some ss => if stmts_eqb ss [SAtom 1] then 1 else 99
+         end
+     | 9%nat => (* if e: A1 (no else) ; delete_unreachable_code: nothing to delete when e is truthy *)
+         match unreachable_if (SIf e [SAtom 1] []) with
+         | None => 0 | Some [] => 3 | Some [SIf _ [SAtom _] []] => 0 | _ => 99
+         end
+     | _ =>
+         (* 10 + 4*isor + 2*(constant is falsy) + (constant first):  <e> op <c> op u()  /  <c> op <e> op u() ;
+            remove_redundant_boolop_values ; code 100 + 4*r0 + 2*r1 + r2 (r_i: operand i removed) *)
+         if (10 <=? shape) && (shape <=? 17) then
+           let k := shape - 10 in
+           let isand := negb (Nat.odd (k / 4)) in
+           let c := if Nat.odd (k / 2) then Falsy else Truthy in
+           let mask := if Nat.odd k then [c; tri_of e; Unknown] else [tri_of e; c; Unknown] in
+           match redundant isand mask with
+           | [r0; r1; r2] => 100 + 4 * (if r0 then 1 else 0) + 2 * (if r1 then 1 else 0) + (if r2 then 1 else 0)
+           | _ => 99
+           end
+         else 99
      end)%nat
   end.
 Definition cons_case_ok (c : nat * expr * nat) : bool :=
